@@ -146,4 +146,62 @@ def run(res, tier):
     res.rule = ("one case = one feasible accepting MIR path (function returns Ok(Some)/Ok); for each, z3 queries: "
                 "accept & stale & policy=reject unsat, accept & premature unsat, and some accepting path is "
                 "satisfiable with stale & policy=warn / accept; evaluations = z3 queries")
+    check_cli_policy(res, E)
     mprop.finish_engine(res, E)
+
+
+def check_cli_policy(res, E):
+    """--stale on the command line overrides the configured policy whenever it is given (whatever its value), and
+    leaves it alone when absent: the slice of Config::apply_arg_matches that handles the option."""
+    import z3
+    import mir
+    import argslice
+    sl = argslice.arg_slice(E, "stale")
+    if sl is None:
+        res.inconclusive.append("apply_arg_matches: the blocks handling --stale were not found")
+        return
+    b2, local, ia, start, end = sl
+    res.functions.append("routinator::config::Config::apply_arg_matches, slice %s..%s handling --stale (MIR)" % (start, end))
+    cf = mir.struct_fields("Config", "src/config.rs")
+    ic = cf.index("stale")
+    selfp = mir.Opq("&mut Config", "self")
+    c0 = z3.Int("configured_stale_policy")
+    base = (("o", selfp.id), "deref", ("f", ic))
+
+    def pre(E_, st, frame):
+        st.mem[base + ("disc",)] = c0
+    n = 0
+    for i, p in enumerate(E.explore(b2, max_visits=2, arg_values={"_1": {(): selfp}}, pre=pre, max_paths=500)):
+        if p.kind != "return":
+            continue
+        n += 1
+        ad, pay = argslice.arg_leaves(p, local, ia)
+        if ad is None:
+            res.inconclusive.append("apply_arg_matches --stale slice path %d: the argument was not read" % i)
+            continue
+        pv = p.mem.get(("F1:%s" % local, ("f", ia), ("v", "Some"), ("f", 0)))
+        post = p.mem.get(base)
+        post_d = p.mem.get(base + ("disc",))
+        given_forced = not E.feasible(p.cond, ad != 1)
+        absent_forced = not E.feasible(p.cond, ad != 0)
+        same = lambda x, y: (isinstance(x, mir.Opq) and isinstance(y, mir.Opq) and x.id == y.id) or (mir.is_z(x) and mir.is_z(y) and x.eq(y))
+        bad = None
+        what = ""
+        if given_forced:
+            if not (post is not None and pv is not None and same(post, pv)):
+                bad = E.model(p.cond, z3.BoolVal(True))
+                what = "--stale is given, yet the policy in force afterwards is not the given value (it stays the configured one or becomes %r)" % (post,)
+        elif absent_forced:
+            if post is not None or not (mir.is_z(post_d) and post_d.eq(c0)):
+                bad = E.model(p.cond, z3.BoolVal(True))
+                what = "--stale is absent, yet the configured policy is overwritten"
+        else:
+            res.inconclusive.append("apply_arg_matches --stale slice path %d does not depend on whether the option was given" % i)
+            continue
+        if bad is not None:
+            fn = mprop.write_cex(res, "cli_stale_%d" % i, p, E, what, bad)
+            res.violation("mir:cli-stale-not-applied", "the command line's --stale is not applied as given (%s): a config file's accept/warn can survive an explicit --stale reject" % what, fn)
+            break
+    res.distinct += n
+    if n < 2:
+        res.inconclusive.append("vacuity: --stale slice has %d returning paths" % n)
